@@ -127,14 +127,14 @@ func (m Match) IsMatch(ctx context.Context, path string, e discovery.Entry) bool
 	}
 
 	if m.Path != "" {
-		re := strictRegex(m.Path)
+		re := anchoredRegex(m.Path)
 		if !re.MatchString(path) {
 			return false
 		}
 	}
 
 	if m.Name != "" {
-		re := strictRegex(m.Name)
+		re := anchoredRegex(m.Name)
 		if e.Rule.AlertingRule != nil && !re.MatchString(e.Rule.AlertingRule.Alert.Value) {
 			return false
 		}
@@ -200,8 +200,8 @@ func (ml MatchLabel) validate() error {
 }
 
 func (ml MatchLabel) isMatching(entry discovery.Entry) bool {
-	keyRe := strictRegex(ml.Key)
-	valRe := strictRegex(ml.Value)
+	keyRe := anchoredRegex(ml.Key)
+	valRe := anchoredRegex(ml.Value)
 
 	for _, label := range entry.Labels().Items {
 		if keyRe.MatchString(label.Key.Value) && valRe.MatchString(label.Value.Value) {
@@ -228,8 +228,8 @@ func (ma MatchAnnotation) validate() error {
 }
 
 func (ma MatchAnnotation) isMatching(rule parser.Rule) bool {
-	keyRe := strictRegex(ma.Key)
-	valRe := strictRegex(ma.Value)
+	keyRe := anchoredRegex(ma.Key)
+	valRe := anchoredRegex(ma.Value)
 
 	if rule.AlertingRule == nil || rule.AlertingRule.Annotations == nil {
 		return false
@@ -339,4 +339,11 @@ func stateMatches(states []string, state discovery.ChangeType) bool {
 		}
 	}
 	return false
+}
+
+// anchoredRegex compiles a match/ignore condition as a fully anchored regexp.
+// The pattern is wrapped in a group so that a top level alternation ("a|b")
+// is anchored as a whole rather than as "^a" or "b$".
+func anchoredRegex(s string) *regexp.Regexp {
+	return regexp.MustCompile("^(?:" + s + ")$")
 }
